@@ -216,6 +216,26 @@ func (w *World) genBlock(r *Rand) *BlockArgs {
 		case 3: // old by both
 			e.AgeBlocks, e.AgeSec = cfg.EvidenceMaxAgeBlocks+2, cfg.EvidenceMaxAgeSec+5
 		}
+		// sometimes against a validator that has just left the set (still within the evidence age)
+		if len(w.Cmt.Recent) > 0 && r.Chance(0.35) {
+			var addrs []string
+			for a := range w.Cmt.Recent {
+				if a != string(anchor) {
+					addrs = append(addrs, a)
+				}
+			}
+			sort.Strings(addrs)
+			if len(addrs) > 0 {
+				a0 := pick(r, addrs)
+				back := w.Cmt.Height + 1 - w.Cmt.Recent[a0]
+				if back < 0 {
+					back = 0
+				}
+				e.Addr = hx([]byte(a0))
+				e.AgeBlocks = back + 1 + r.Int63n(2)
+				e.AgeSec = 2
+			}
+		}
 		a.Evidence = append(a.Evidence, e)
 	}
 	if r.Chance(w.weight("p.round")) {
@@ -245,9 +265,9 @@ func (w *World) genBlock(r *Rand) *BlockArgs {
 		for i := 0; i < n; i++ {
 			call := pick(r, []string{"fcuBuild", "getPayload", "newPayload"})
 			kinds := map[string][]string{
-				"fcuBuild":   {"error", "timeout", "invalid", "syncing", "accepted", "nopayloadid", "stall", "slow"},
+				"fcuBuild":   {"error", "timeout", "invalid", "invalid-noerr", "syncing", "accepted", "nopayloadid", "stall", "slow"},
 				"getPayload": {"error", "timeout", "unknownpayload", "stall", "slow"},
-				"newPayload": {"error", "invalid", "syncing", "accepted", "stall", "slow"},
+				"newPayload": {"error", "invalid", "invalid-noerr", "syncing", "accepted", "stall", "slow"},
 			}[call]
 			rs.Faults = append(rs.Faults, &NodeFault{Node: r.Intn(cfg.Nodes), Call: call, Kind: pick(r, kinds)})
 		}
@@ -256,8 +276,8 @@ func (w *World) genBlock(r *Rand) *BlockArgs {
 	if r.Chance(w.weight("p.finfault")) {
 		call := pick(r, []string{"newPayload", "fcuHead"})
 		kinds := map[string][]string{
-			"newPayload": {"error", "invalid", "syncing", "accepted", "stall", "slow"},
-			"fcuHead":    {"error", "invalid", "syncing", "accepted", "stall", "slow"},
+			"newPayload": {"error", "invalid", "invalid-noerr", "syncing", "accepted", "stall", "slow"},
+			"fcuHead":    {"error", "invalid", "invalid-noerr", "syncing", "accepted", "stall", "slow"},
 		}[call]
 		a.FinFaults = append(a.FinFaults, &NodeFault{Node: r.Intn(cfg.Nodes), Call: call, Kind: pick(r, kinds)})
 	}
